@@ -498,21 +498,9 @@ func (c *Ctx) sessionRules(full bool) (leaveSync bool) {
 	{
 		ok := false
 		d := "the reader has no branch on errors.Is(err, key-exists) that returns"
-		for _, b := range reader.Blocks {
-			iff, isIf := b.Instrs[len(b.Instrs)-1].(*ssa.If)
-			if !isIf {
-				continue
-			}
-			call, isCall := iff.Cond.(*ssa.Call)
-			if !isCall {
-				continue
-			}
-			sc := call.Call.StaticCallee()
-			if sc == nil || sc.String() != "errors.Is" || !c.mentionsGlobal(call.Call.Args[1], "_errKeyExist") {
-				continue
-			}
-			// true branch reaches Return without a Send on msgChan
-			tb := b.Succs[0]
+		// straightExit: every path from block tb returns without handing a message to the writer and without going back
+		// into a loop that contains `from`
+		straightExit := func(from, tb *ssa.BasicBlock) bool {
 			seen := map[*ssa.BasicBlock]bool{}
 			reachesRet, sends := false, false
 			var walk func(x *ssa.BasicBlock)
@@ -539,17 +527,86 @@ func (c *Ctx) sessionRules(full bool) (leaveSync bool) {
 				}
 			}
 			walk(tb)
-			// the true branch must be a straight exit: all paths from it return (no way back into the loop)
 			straight := true
 			for blk := range seen {
 				for _, s := range blk.Succs {
-					if s.Dominates(b) { // back into the read loop
+					if s.Dominates(from) { // back into the read loop
 						straight = false
 					}
 				}
 			}
-			ok = reachesRet && !sends && straight
-			d = "on a refused duplicate key the reader keeps serving the connection or forwards the message"
+			return reachesRet && !sends && straight
+		}
+		// ends: taking branch tb of block b in function f ends the connection: a straight exit of the reader itself, or -
+		// when the read loop is split into helpers - a straight return of the helper whose callers in turn leave on it
+		var ends func(f *ssa.Function, b, tb *ssa.BasicBlock, depth int) bool
+		ends = func(f *ssa.Function, b, tb *ssa.BasicBlock, depth int) bool {
+			if !straightExit(b, tb) {
+				return false
+			}
+			if f == reader {
+				return true
+			}
+			if depth > 3 {
+				return false
+			}
+			// every call site of the helper: the caller branches on one of its results and one side is itself an end
+			nSites, okAll := 0, true
+			for _, g := range c.familyOf(reader) {
+				for _, gb := range g.Blocks {
+					for _, ins := range gb.Instrs {
+						call, isC := ins.(*ssa.Call)
+						if !isC || call.Call.StaticCallee() != f {
+							continue
+						}
+						nSites++
+						found := false
+						for _, b2 := range g.Blocks {
+							iff, isIf := b2.Instrs[len(b2.Instrs)-1].(*ssa.If)
+							if !isIf {
+								continue
+							}
+							cond := iff.Cond
+							for {
+								u, isU := cond.(*ssa.UnOp)
+								if !isU || u.Op != token.NOT {
+									break
+								}
+								cond = u.X
+							}
+							ex, isEx := cond.(*ssa.Extract)
+							if cond != ssa.Value(call) && !(isEx && ex.Tuple == ssa.Value(call)) {
+								continue
+							}
+							if ends(g, b2, b2.Succs[0], depth+1) || ends(g, b2, b2.Succs[1], depth+1) {
+								found = true
+							}
+						}
+						if !found {
+							okAll = false
+						}
+					}
+				}
+			}
+			return nSites > 0 && okAll
+		}
+		for _, rf := range c.familyOf(reader) {
+			for _, b := range rf.Blocks {
+				iff, isIf := b.Instrs[len(b.Instrs)-1].(*ssa.If)
+				if !isIf {
+					continue
+				}
+				call, isCall := iff.Cond.(*ssa.Call)
+				if !isCall {
+					continue
+				}
+				sc := call.Call.StaticCallee()
+				if sc == nil || sc.String() != "errors.Is" || !c.mentionsGlobal(call.Call.Args[1], "_errKeyExist") {
+					continue
+				}
+				ok = ends(rf, b, b.Succs[0], 0)
+				d = "on a refused duplicate key the reader keeps serving the connection or forwards the message"
+			}
 		}
 		add("E5.refuse", "connection.reader / a refused duplicate ends only the new connection", reader, ok, d)
 	}
